@@ -12,8 +12,7 @@ variable (info : CompId → CompInfo)
 /-! ## `addDependency` -/
 
 theorem dep_refines {c : CW} {s : WS} (hi : Inv c) (hr : Rel c s) (comp : CompId) (extra : Mask)
-    (hex : ∀ x ∈ extra, x < 128)
-    (hcl : ∀ a ∈ c.w.archs, ∀ x ∈ a.mask, ∀ d ∈ depsOf (addDependency c.w.deps comp extra) x, d ∈ a.mask) :
+    (hex : ∀ x ∈ extra, x < 128) :
     StepRefines info c s (.dep comp extra) := by
   obtain ⟨w, iss⟩ := c
   have hstep : CW.step info ⟨w, iss⟩ (.dep comp extra) =
@@ -31,7 +30,6 @@ theorem dep_refines {c : CW} {s : WS} (hi : Inv c) (hr : Rel c s) (comp : CompId
       live := ⟨hi.live.live_in, hi.live.row_live⟩
       pool := ⟨hi.pool.vals_nodup, hi.pool.insts_nodup, hi.pool.inst_lt, hi.pool.inst_sid⟩
       shared := hi.shared
-      closed := hcl
       depsB := addDependency_bounded hi.depsB comp hex
       locsCover := hi.locsCover
       bufLe := hi.bufLe
@@ -214,7 +212,6 @@ theorem destroy_unlocked_refines {c : CW} {s : WS} (hi : Inv c) (hb : Bounds c) 
         live := ⟨hi.live.live_in, hi.live.row_live⟩
         pool := ⟨hi.pool.vals_nodup, hi.pool.insts_nodup, hi.pool.inst_lt, hi.pool.inst_sid⟩
         shared := hi.shared
-        closed := hi.closed
         depsB := hi.depsB
         locsCover := hi.locsCover
         bufLe := hi.bufLe
